@@ -106,6 +106,10 @@ pub struct Model {
     pub seen_cookies: BTreeSet<Uuid>,
     /// cookies of services that existed and are gone (generators aim stale requests at them)
     pub dead_svcs: Vec<Uuid>,
+    /// callee-side serials of calls that ended WITHOUT the callee's reply (their service was
+    /// destroyed under them): the callee may still send a late reply carrying such a serial, which
+    /// must never be delivered - so the broker cannot hand the serial to a new call of that callee
+    pub tainted_callee_serials: BTreeSet<(C, u32)>,
     /// connections on which nothing can be observed (their broker-side task was dropped)
     pub unobservable: BTreeSet<C>,
     /// introspection database: type id -> entry
@@ -294,6 +298,7 @@ impl Model {
         let mut keep = vec![];
         for call in std::mem::take(&mut self.calls) {
             if call.svc_cookie == svc.cookie {
+                self.tainted_callee_serials.insert((call.callee, call.callee_serial));
                 if !call.aborted && call.caller_waiting && self.alive(call.caller) {
                     eff.must(call.caller, CallFunctionReply { serial: call.caller_serial, result: CallFunctionResult::InvalidService });
                 }
@@ -1317,6 +1322,13 @@ impl Model {
             ));
             return;
         };
+        if self.tainted_callee_serials.contains(&(callee, cs)) && !self.unobservable.contains(&callee) {
+            eff.problems.push(format!(
+                "call serial {} to service {} was forwarded with callee-side serial {}, which an earlier call to the same connection carried that ended without the callee's reply (its service was destroyed): a late reply to that call would now be delivered to this caller",
+                serial, svc_cookie, cs
+            ));
+            eff.note("call:tainted-callee-serial-reused");
+        }
         if callee_v >= 19 {
             eff.must(callee, CallFunction2 { serial: cs, service_cookie: ServiceCookie(svc_cookie), function, version, value: value.clone() });
         } else {
